@@ -573,7 +573,8 @@ func (c *Context) Sqrt(d, x *Decimal) (Condition, error) {
 	nc.Precision = c.Precision
 	nc.Rounding = RoundHalfEven
 	nc.MinExponent = c.MinExponent
-	nc.MaxExponent = c.MaxExponent
+	// nc.MaxExponent stays at the package limit until the rounding is settled:
+	// whether the root overflows is decided on the settled value.
 	// d is approx with the exponent of the root; f with its original exponent
 	// is x (x itself may be aliased by d).
 	approx.Set(d)
@@ -587,6 +588,8 @@ func (c *Context) Sqrt(d, x *Decimal) (Condition, error) {
 		// compare the square of the midpoint with x.
 		res |= sqrtSettle(nc, d, &approx, &f)
 	}
+	nc.MaxExponent = c.MaxExponent
+	res |= nc.round(d, d)
 	if !res.Inexact() && d.Form == Finite {
 		// When approx happens to have no more than c.Precision significant
 		// digits the rounding above discards nothing, yet the root is exact
